@@ -5,10 +5,10 @@
 //! with and without `required`, anyOf members (forced optional), a single
 //! allOf (unwrapped, `required` kept), references (dereferenced), and the
 //! three error classes.
-use crate::gallina::g_schema;
+use crate::gallina::{g_schema, g_str};
 use dropshot::{ApiDescription, ApiEndpoint, HttpError, HttpResponseUpdatedNoContent, Query, RequestContext};
 use dsverif::dynschema::{set_slot, Dyn, Slot};
-use dsverif::util::{catch, emit, g_bool, g_list, g_opt, g_str, Line, Rng};
+use dsverif::util::{catch, emit, g_bool, g_list, g_opt, Line, Rng};
 use http::Method;
 use schemars::schema::Schema;
 use serde_json::{json, Map, Value};
@@ -157,6 +157,15 @@ pub fn run(case: &Value, out: &mut dyn Write) {
     let defs: Vec<(String, Schema)> =
         defs().into_iter().map(|(n, v)| (n, serde_json::from_value::<Schema>(v).unwrap())).collect();
     set_slot(0, Slot { name: "Dyn".to_string(), schema: schema.clone(), defs: defs.clone(), referenceable: false });
+    // what schema2struct receives: the root schema and the definitions as
+    // get_metadata obtains them from schemars (title inserted, the visitors of
+    // the openapi3 settings applied)
+    let (schema, defs): (Schema, Vec<(String, Schema)>) = {
+        let mut generator =
+            schemars::gen::SchemaGenerator::new(schemars::gen::SchemaSettings::openapi3());
+        let root = generator.root_schema_for::<Dyn<0>>();
+        (Schema::Object(root.schema), root.definitions.into_iter().collect())
+    };
     let r = catch(|| {
         let mut api = ApiDescription::<()>::new();
         let ep = ApiEndpoint::new(
